@@ -522,11 +522,16 @@ func newTarget(kind string) (storage, func()) {
 			panic(err)
 		}
 		return s, func() { s.Close(); os.RemoveAll(dir) }
+	case "registry":
+		return newRegistryTarget(), func() {}
 	}
 	panic("target " + kind)
 }
 
-func byDigest(kind string) bool { return kind == "oci" }
+// keyKind: 0 media type+digest+size, 1 digest, 2 digest per manifest/blob namespace
+func keyKind(kind string) string {
+	return map[string]string{"memory": "0", "file": "0", "oci": "1", "registry": "2"}[kind]
+}
 
 func callPack(sp *spec, p content.Pusher) (ocispec.Descriptor, error) {
 	layers := sp.Layers
@@ -779,7 +784,7 @@ func packCase(sp *spec) {
 		}
 		return "0"
 	}
-	model := fmt.Sprintf("K %s %s %s %s %s %s %s %s %s %s %s %s", sp.Fn, b01(sp.Exists), b01(byDigest(sp.Target)), fa,
+	model := fmt.Sprintf("K %s %s %s %s %s %s %s %s %s %s %s %s", sp.Fn, b01(sp.Exists), keyKind(sp.Target), fa,
 		common.Hex(sp.AT), showODesc(sp.Subject), showList(sp.Layers, sp.LayersNil), showAnn(sp.Ann), showODesc(sp.Config),
 		showAnn(sp.ConfigAnn), strings.Join(append([]string{"S"}, storeEntries...), ","), common.Hex(specJSON(sp)))
 	run.Case(id, model, obs)
@@ -898,7 +903,7 @@ func packCase(sp *spec) {
 		if err2 != nil || !reflect.DeepEqual(d2, desc) {
 			fail("not-deterministic", "second call on the same target: %v %v, first %v", d2, err2, desc)
 		}
-		other, cleanup2 := newTarget(map[string]string{"memory": "oci", "oci": "memory", "file": "memory"}[sp.Target])
+		other, cleanup2 := newTarget(map[string]string{"memory": "oci", "oci": "memory", "file": "memory", "registry": "memory"}[sp.Target])
 		d3, err3 := callPack(sp, pusherOnly{&recorder{inner: other, failAt: -1}})
 		cleanup2()
 		if err3 != nil || !reflect.DeepEqual(d3, desc) {
